@@ -133,11 +133,25 @@ def getOp (j : Json) : Except String Op := do
   | "setComment" => .setComment <$> getOptStr j "c"
   | _ => throw s!"unknown attribute op {k}"
 
+/-- one clause of an overriding `calculate_piece_size`:
+    {"lo": n, "hi": n | null, "value": int} or {"lo": n, "hi": n | null, "raise": "ExceptionName"} -/
+def getRule (j : Json) : Except String CalcRule := do
+  let lo ← getNat j "lo"
+  let hi ← getOptNat j "hi"
+  match j.getObjVal? "raise" with
+  | .ok v => do pure { lo := lo, hi := hi, out := .raise (← v.getStr?) }
+  | .error _ => do
+    let x ← (← j.getObjVal? "value").getInt?
+    pure { lo := lo, hi := hi, out := .value x }
+
 def getEnv (j : Json) : Except String Env := do
   let e ← j.getObjVal? "env"
   let files ← getFiles e "files"
   let dirs ← getPaths e "dirs"
-  pure { files := files, dirs := dirs }
+  let rules ← match e.getObjVal? "rules" with
+    | .ok (Json.arr a) => a.toList.mapM getRule
+    | _ => pure []
+  pure { files := files, dirs := dirs, rules := rules }
 
 def jpath (p : Path) : Json := jarr (p.map jstr)
 
@@ -150,6 +164,8 @@ def errName : Err → String
   | .index => "IndexError"
   | .value => "ValueError"
   | .runtime => "RuntimeError"
+  | .calcRaised n => n
+  | .calcRejected => "PieceSizeError"
   | .internal w => "internal:" ++ w
 
 def resJson : Res → Json
@@ -197,17 +213,26 @@ def stateJson (env : Env) (s : St) : Json :=
 def runOps (j : Json) : Except String Json := do
   let env ← getEnv j
   let ops ← (← getArr j "ops").mapM getOp
-  let (_, _, _, out) := ops.foldl (init := (Attrs.init, true, 0, ([] : List Json)))
-    fun (acc : St × Bool × Nat × List Json) op =>
-      let (s, hyp, k, out) := acc
-      let hyp' := hyp && decide (OpOk s op)
+  -- `hyp`: AllOk (every step `StepOk`: `OpOk` and no failure inside the recalculation);
+  -- `hypW`: AllOpOk (failures allowed: `InvW` is claimed, `C09_weak_history`); `full`: the tracker
+  -- `runFull` of `C09_inv_tracked_history` (`Inv` is claimed under `hypW ∧ full`);
+  -- `invS`: claimed without any hypothesis (`C09_stamp_history`); `fault`: this step failed inside
+  -- the recalculation of the piece length
+  let (_, _, _, _, _, out) := ops.foldl (init := (Attrs.init, true, true, true, 0, ([] : List Json)))
+    fun (acc : St × Bool × Bool × Bool × Nat × List Json) op =>
+      let (s, hyp, hypW, full, k, out) := acc
+      let hyp' := hyp && decide (StepOk env s op)
+      let hypW' := hypW && decide (OpOk s op)
+      let full' := fullAfter env s full op
       let hypC := hyp' || decide (AllOkC env Attrs.init (ops.take (k + 1)))
       let (s', r) := apply env s op
-      (s', hyp', k + 1,
+      (s', hyp', hypW', full', k + 1,
        jobj [("state", stateJson env s'), ("res", resJson r), ("hyp", jbool hyp'),
-             ("hypC", jbool hypC),
+             ("hypC", jbool hypC), ("hypW", jbool hypW'), ("full", jbool full'),
+             ("fault", jbool r.faulted),
              ("opOk", jbool (decide (OpOk s op))),
-             ("inv", jbool (decide (Inv s'))), ("fok", jbool (decide (FiltersOk s')))] :: out)
+             ("inv", jbool (decide (Inv s'))), ("invW", jbool (decide (InvW s'))),
+             ("invS", jbool (decide (InvS s'))), ("fok", jbool (decide (FiltersOk s')))] :: out)
   return jobj [("steps", jarr out.reverse), ("init", stateJson env Attrs.init),
                ("initInv", jbool (decide (Inv Attrs.init)))]
 
@@ -232,17 +257,18 @@ def runOps2 (j : Json) : Except String Json := do
   let okM (w : St2) : Op2 → Bool
     | .copy false => copyM w.a
     | .copy true => copyM w.b
-    | op => decide (OpOk2 w op)
+    | .on false o => decide (OpOk w.a o)      -- a failure inside the recalculation is modelled exactly
+    | .on true o => decide (OpOk w.b o)
   let (_, _, _, out) := ops.foldl (init := (Attrs.init2, true, true, ([] : List Json)))
     fun (acc : St2 × Bool × Bool × List Json) op =>
       let (w, hyp, hypM, out) := acc
-      let hyp' := hyp && decide (OpOk2 w op)
+      let hyp' := hyp && decide (OpOk2 env w op)
       let hypM' := hypM && okM w op
       let (w', r) := apply2 env w op
       (w', hyp', hypM',
        jobj [("state0", stateJson env w'.a), ("state1", stateJson env w'.b), ("res", resJson r),
              ("hyp", jbool hyp'), ("hypM", jbool hypM'), ("inv0", jbool (decide (Inv w'.a))),
-             ("inv1", jbool (decide (Inv w'.b))),
+             ("inv1", jbool (decide (Inv w'.b))), ("fault", jbool r.faulted),
              ("fok", jbool (decide (FiltersOk w'.a) && decide (FiltersOk w'.b)))] :: out)
   return jobj [("steps", jarr out.reverse), ("init", stateJson env Attrs.init)]
 
